@@ -153,8 +153,10 @@ def quadCell(img, **kwargs):
         ndarray: Array of centroid values
     """
 
-    xSum = img.sum(-2)
-    ySum = img.sum(-1)
+    # sum in a signed type: the difference of two unsigned sums (uint8/16 camera frames) would wrap around
+    sum_type = numpy.result_type(img.dtype, numpy.int64)
+    xSum = img.sum(-2, dtype=sum_type)
+    ySum = img.sum(-1, dtype=sum_type)
 
     xCent = xSum[...,1] - xSum[...,0]
     yCent = ySum[...,1] - ySum[...,0]
